@@ -40,9 +40,13 @@ type pushPlan struct {
 	Delay  time.Duration // before answering
 	Drop   bool          // close the connection instead of answering (transport error)
 	Hang   bool          // answer only after the client's timeout has passed (transport error of the timeout kind)
+	Trunc  bool          // a complete status line and headers, then a body shorter than its Content-Length: the
+	// status decides (a success status is a success whatever happens to the body)
 }
 
 type pushReqLog struct {
+	Query     string
+	User      string
 	At        time.Time
 	Done      time.Time
 	Body      []byte
@@ -94,7 +98,10 @@ func (ep *pushEndpoint) handle(w http.ResponseWriter, r *http.Request) {
 	if ep.inFlight > ep.maxIn {
 		ep.maxIn = ep.inFlight
 	}
-	l := &pushReqLog{At: time.Now(), Body: body, MessageID: id, Plan: plan, InFlight: ep.inFlight}
+	l := &pushReqLog{At: time.Now(), Body: body, MessageID: id, Plan: plan, InFlight: ep.inFlight, Query: r.URL.RawQuery}
+	if u, _, ok := r.BasicAuth(); ok {
+		l.User = u
+	}
 	if ep.window != nil {
 		l.Window = ep.window()
 	}
@@ -119,6 +126,16 @@ func (ep *pushEndpoint) handle(w http.ResponseWriter, r *http.Request) {
 				if tc, ok := c.(*net.TCPConn); ok {
 					tc.SetLinger(0)
 				}
+				c.Close()
+				return
+			}
+		}
+	}
+	if plan.Trunc && plan.Status != 204 {
+		if hj, ok := w.(http.Hijacker); ok {
+			if c, buf, err := hj.Hijack(); err == nil {
+				fmt.Fprintf(buf, "HTTP/1.1 %d %s\r\nContent-Type: text/plain\r\nContent-Length: 64\r\nConnection: close\r\n\r\npartial", plan.Status, http.StatusText(plan.Status))
+				buf.Flush()
 				c.Close()
 				return
 			}
@@ -606,7 +623,7 @@ func runPushE2E(seed int64, scenario string) (*e2eResult, error) {
 		return pushPlan{Status: []int{203, 205, 206, 301, 304, 400, 404, 408, 429, 500, 502, 503, 599}[r.Intn(13)], Delay: time.Duration(r.Intn(40)) * time.Millisecond}
 	}
 	ok := func() pushPlan {
-		return pushPlan{Status: []int{200, 201, 202, 204}[r.Intn(4)], Delay: time.Duration(r.Intn(60)) * time.Millisecond}
+		return pushPlan{Status: []int{200, 201, 202, 204}[r.Intn(4)], Delay: time.Duration(r.Intn(60)) * time.Millisecond, Trunc: r.Intn(5) == 0}
 	}
 	var msgs []*e2eMsg
 	n := 14
@@ -697,7 +714,9 @@ func runPushE2E(seed int64, scenario string) (*e2eResult, error) {
 	if scenario == "timeout" {
 		hc = &http.Client{Timeout: 400 * time.Millisecond}
 	}
-	pusher := actions.NewHttpPusher(subName, sub.ID, ep.srv.URL+"/push", hc, e.Client)
+	// (the configured endpoint carries credentials the way push endpoints do: a query token and userinfo)
+	pushURL := strings.Replace(ep.srv.URL, "http://", "http://pusher:s3cret@", 1) + "/push?token=abc123&x=1"
+	pusher := actions.NewHttpPusher(subName, sub.ID, pushURL, hc, e.Client)
 	ep.window = func() int { return pusher.CurrentFlowControl().MaxMessages }
 	pctx, pcancel := context.WithCancel(ctx)
 	done := make(chan error, 1)
@@ -793,6 +812,9 @@ func runPushE2E(seed int64, scenario string) (*e2eResult, error) {
 		for a, l := range ls {
 			want := wantEnvelope{Payload: m.Payload, PayloadIsJSONValue: true, Attrs: m.Attrs, MessageID: m.ID.String(), Key: m.Key,
 				Published: e.ToReal(row.Published), Sub: subName, Attempt: a + 1}
+			if l.Query != "token=abc123&x=1" || l.User != "pusher" {
+				prob("wrong-endpoint", fmt.Sprintf("attempt %d of message %s was POSTed with query %q and user %q: the subscription's push endpoint is .../push?token=abc123&x=1 with userinfo pusher:...", a+1, m.ID, l.Query, l.User), nil)
+			}
 			why, data, enc := checkEnvelope(l.Body, want)
 			if why != "" {
 				prob("envelope", fmt.Sprintf("attempt %d of message %s: %s", a+1, m.ID, why), map[string]interface{}{"body": string(l.Body), "published_payload": string(m.Payload), "attrs": m.Attrs, "key": m.Key})
